@@ -8,7 +8,7 @@ Section Proofs.
 Variables V M IX : Type.
 Variable g : graph V.
 Variable sm : sem V M IX.
-Variable fx : bool.
+Variable fx chk : bool.
 Hypothesis wf : WF g.
 
 Notation vals := (vals V).
@@ -649,6 +649,9 @@ End WithFork.
 
 (** ** every operation keeps every state of the store consistent *)
 
+Section Disc.
+Hypothesis fx_or_chk : fx = true \/ chk = true.
+
 Notation Good := (Good g).
 
 Lemma Good_init m : Good (init_state g m).
@@ -684,7 +687,7 @@ Qed.
 Lemma get_state_fork st i : fork (fst (get_state g st i)) = fork st /\ mode (fst (get_state g st i)) = mode st.
 Proof. unfold get_state. destruct (get g (values st) i). cbn. auto. Qed.
 
-Lemma Good_set st i o : Good st -> (i < n -> settable g i = true -> unforked_ok fx st) -> Good (fst (set_state g fx st i o)).
+Lemma Good_set st i o : Good st -> (i < n -> settable g i = true -> unforked_ok chk st) -> Good (fst (set_state g fx st i o)).
 Proof.
   intros [HI [HB HF]] Hu. unfold set_state. destruct (i <? n) eqn:Ei; cbn [negb]; [|now repeat split].
   destruct (settable g i) eqn:Es; cbn [negb]; [|now repeat split]. apply Nat.ltb_lt in Ei. cbn [fst].
@@ -696,10 +699,10 @@ Proof.
     + apply (Inv_ext (values st)); [|exact HI]. intros j. symmetry. apply override_snapshot.
     + intros c x Hin Hx. apply in_map_iff in Hin. destruct Hin as [c' [Hc' _]]. injection Hc' as -> <-.
       destruct (le_lt_dec n c) as [H|H]; [|exact H]. now rewrite (HB c H) in Hx.
-  - destruct fx eqn:Efx; [exact I|]. rewrite (Hu Ei eq_refl eq_refl Em). exact I.
+  - destruct fx eqn:Efx; [exact I|]. destruct fx_or_chk as [H|H]; [discriminate|]. rewrite (Hu Ei eq_refl H Em). exact I.
 Qed.
 
-Lemma Good_put st i ix v acc : Good st -> (i < n -> settable g i = true -> unforked_ok fx st) ->
+Lemma Good_put st i ix v acc : Good st -> (i < n -> settable g i = true -> unforked_ok chk st) ->
   Good (fst (put_state g sm fx st i ix v acc)).
 Proof.
   intros HG Hu. unfold put_state.
@@ -771,7 +774,7 @@ Qed.
 Lemma AllGood_init : AllGood (init_store g).
 Proof. intros [|k] st H; cbn in H; [injection H as <-; apply Good_init | destruct k; discriminate]. Qed.
 
-Theorem Good_step s o : F_mix g sm -> AllGood s -> op_ok g fx s o -> AllGood (fst (step g sm fx s o)).
+Theorem Good_step s o : F_mix g sm -> AllGood s -> op_ok g chk s o -> AllGood (fst (step g sm fx s o)).
 Proof.
   intros HFm HA Hok. destruct o; cbn [step].
   - apply AllGood_on_state; [exact HA|]. intros st Hst. apply Good_get. now apply (HA k).
@@ -798,7 +801,7 @@ Lemma run_cons s o r : run g sm fx s (o :: r) =
   (fst (run g sm fx (fst (step g sm fx s o)) r), snd (step g sm fx s o) :: snd (run g sm fx (fst (step g sm fx s o)) r)).
 Proof. cbn. destruct (step g sm fx s o) as [s' x]. cbn. destruct (run g sm fx s' r). reflexivity. Qed.
 
-Theorem Good_run ops : F_mix g sm -> forall s, AllGood s -> Disciplined g sm fx s ops -> AllGood (fst (run g sm fx s ops)).
+Theorem Good_run ops : F_mix g sm -> forall s, AllGood s -> Disciplined g sm fx chk s ops -> AllGood (fst (run g sm fx s ops)).
 Proof.
   intros HFm. induction ops as [|o r IH]; intros s HA HD; [exact HA|].
   rewrite run_cons. cbn [fst]. destruct HD as [Hok HD]. apply IH; [|exact HD]. now apply Good_step.
@@ -829,7 +832,7 @@ Proof. intros H. cbn. unfold on_state. rewrite H. unfold get_state. destruct (ge
 
 (** The main statement: after any disciplined history, every read of every state returns the from-scratch
     value of that state's current independent values, or an input error when that value does not exist. *)
-Theorem read_after_history ops : F_mix g sm -> Disciplined g sm fx (init_store g) ops ->
+Theorem read_after_history ops : F_mix g sm -> Disciplined g sm fx chk (init_store g) ops ->
   forall k i st, nth_error (fst (run g sm fx (init_store g) ops)) k = Some st ->
   snd (step g sm fx (fst (run g sm fx (init_store g) ops)) (Get k i)) = read_spec (values st) i.
 Proof.
@@ -838,4 +841,86 @@ Proof.
   now apply get_is_scratch.
 Qed.
 
+Corollary never_stale ops : F_mix g sm -> Disciplined g sm fx chk (init_store g) ops ->
+  forall k i st v, nth_error (fst (run g sm fx (init_store g) ops)) k = Some st ->
+  snd (step g sm fx (fst (run g sm fx (init_store g) ops)) (Get k i)) = Ok v ->
+  scratch g (values st) i = Some v.
+Proof.
+  intros HFm HD k i st v Hst Hv. rewrite (read_after_history ops HFm HD k i st Hst) in Hv.
+  unfold read_spec in Hv. destruct (scratch g (values st) i); [now injection Hv as -> | discriminate].
+Qed.
+
+Corollary unset_is_error ops : F_mix g sm -> Disciplined g sm fx chk (init_store g) ops ->
+  forall k i st, nth_error (fst (run g sm fx (init_store g) ops)) k = Some st ->
+  let r := snd (step g sm fx (fst (run g sm fx (init_store g) ops)) (Get k i)) in
+  (r = Err InputError <-> scratch g (values st) i = None) /\ (forall e, r = Err e -> e = InputError).
+Proof.
+  intros HFm HD k i st Hst r. unfold r. rewrite (read_after_history ops HFm HD k i st Hst).
+  unfold read_spec. destruct (scratch g (values st) i).
+  - split; [split; discriminate | intros e H; discriminate].
+  - split; [split; reflexivity | intros e H; now injection H as <-].
+Qed.
+
+(** a read is transparent: it changes no independent value, not the undo log, not the fork mode, and no later read *)
+Theorem get_transparent st i : Good st ->
+  let st' := fst (get_state g st i) in
+  (forall j, linked g j = false -> values st' j = values st j) /\ fork st' = fork st /\ mode st' = mode st /\
+  (forall j, snd (get g (values st') j) = snd (get g (values st) j)).
+Proof.
+  intros HG. pose proof (Good_get st i HG) as HG'. destruct (get_state_fork st i) as [Hf Hm].
+  destruct HG as [HI [HB _]]. destruct HG' as [HI' [HB' _]].
+  assert (HS : forall j, linked g j = false -> values (fst (get_state g st i)) j = values st j).
+  { destruct (get_props (values st) i HI HB) as [_ [_ [HE _]]]. unfold get_state.
+    destruct (get g (values st) i) as [vs' o]. cbn in *. exact (extends_indep _ _ _ HE). }
+  cbv zeta. split; [exact HS|]. split; [exact Hf|]. split; [exact Hm|].
+  intros j. rewrite !get_is_scratch by assumption. unfold read_spec. now rewrite (scratch_ext _ _ HS).
+Qed.
+
+End Disc.
+
+(** ** states of a store do not interfere *)
+Definition op_state (o : op V M IX) : nat :=
+  match o with
+  | Get k _ | IsSet k _ | Set_ k _ _ | Put k _ _ _ _ | Revert k | RevertMask k _ | Clone k _ _
+  | SetMode k _ | Precompute k | Clear k => k
+  end.
+
+Lemma step_other s o k : op_state o <> k -> k < length s -> nth_error (fst (step g sm fx s o)) k = nth_error s k.
+Proof.
+  intros Hk Hlen.
+  assert (On : forall f, nth_error (fst (on_state s (op_state o) f)) k = nth_error s k).
+  { intros f. unfold on_state. destruct (nth_error s (op_state o)) as [st|] eqn:E; [|reflexivity].
+    destruct (f st) as [st' x]. cbn [fst]. rewrite nth_set_nth.
+    destruct (Nat.eqb k (op_state o)) eqn:Ek; [apply Nat.eqb_eq in Ek; congruence | reflexivity]. }
+  destruct o; cbn [step op_state] in *; try apply On.
+  destruct (nth_error s k0); [|reflexivity]. cbn [fst]. now apply nth_error_app1.
+Qed.
+
+Lemma step_length s o : length s <= length (fst (step g sm fx s o)).
+Proof.
+  assert (On : forall k f, length (fst (on_state s k f)) = length s).
+  { intros k f. unfold on_state. destruct (nth_error s k) as [st|]; [|reflexivity]. destruct (f st) as [st' x]. cbn [fst].
+    clear. revert k. induction s as [|y r IH]; intros [|k]; cbn; auto. }
+  destruct o; cbn [step]; try (rewrite On; lia).
+  destruct (nth_error s k); [|cbn; lia]. cbn [fst]. rewrite app_length. lia.
+Qed.
+
+Theorem clone_isolated ops : forall s k, k < length s -> (forall o, In o ops -> op_state o <> k) ->
+  nth_error (fst (run g sm fx s ops)) k = nth_error s k.
+Proof.
+  induction ops as [|o r IH]; intros s k Hlen Hops; [reflexivity|].
+  rewrite run_cons. cbn [fst]. rewrite IH.
+  - apply step_other; [apply Hops; now left | exact Hlen].
+  - pose proof (step_length s o). lia.
+  - intros o' Ho'. apply Hops. now right.
+Qed.
+
+(** the clone itself starts as an exact copy of the values *)
+Lemma clone_copy s k d kp st : nth_error s k = Some st ->
+  nth_error (fst (step g sm fx s (Clone k d kp))) (length s) = Some (clone_state st d kp) /\ values (clone_state st d kp) = values st.
+Proof.
+  intros H. cbn [step]. rewrite H. cbn [fst]. rewrite nth_error_app2, Nat.sub_diag by lia. now split.
+Qed.
+
 End Proofs.
+Arguments op_state {V M IX} o.
